@@ -67,3 +67,67 @@ package codecs
 //@ spec (*OpusPartitionHeadChecker).IsPartitionHead
 //@   ensures always [C16]: result0
 //@ end
+
+// ===== C11: VP8 payload descriptor (RFC 7741 section 4.2), written from the RFC's diagram =====
+//
+//       0 1 2 3 4 5 6 7
+//      |X|R|N|S|R| PID | (REQUIRED)      octet 0
+// X:   |I|L|T|K| RSV   | (OPTIONAL)      octet 1 when X
+// I:   |M| PictureID   | (OPTIONAL)      one octet, two when M
+// L:   |   TL0PICIDX   | (OPTIONAL)
+// T/K: |TID|Y| KEYIDX  | (OPTIONAL)
+
+//@ pure vp8X(p) = bits(p[0], 7, 7)
+//@ pure vp8I(p) = ite(vp8X(p) == 1, bits(p[1], 7, 7), 0)
+//@ pure vp8L(p) = ite(vp8X(p) == 1, bits(p[1], 6, 6), 0)
+//@ pure vp8T(p) = ite(vp8X(p) == 1, bits(p[1], 5, 5), 0)
+//@ pure vp8K(p) = ite(vp8X(p) == 1, bits(p[1], 4, 4), 0)
+//@ pure vp8PidOff(p) = 1 + vp8X(p)
+//@ pure vp8M(p) = ite(vp8I(p) == 1, bits(p[vp8PidOff(p)], 7, 7), 0)
+//@ pure vp8TL0Off(p) = vp8PidOff(p) + ite(vp8I(p) == 1, 1 + vp8M(p), 0)
+//@ pure vp8TKOff(p) = vp8TL0Off(p) + vp8L(p)
+//@ pure vp8DescLen(p) = vp8TKOff(p) + ite(vp8T(p) == 1 || vp8K(p) == 1, 1, 0)
+
+//@ spec (*VP8Packet).Unmarshal
+//@   modifies p.*
+//@   ensures nilpacket [C11,C09]: payload == nil ==> errIs(err, errNilPacket) && len(result0) == 0
+//@   ensures cut_short [C11,C09]: payload != nil ==> ((err != nil) <==> len(payload) < vp8DescLen(payload))
+//@   ensures short_err [C11]: payload != nil && err != nil ==> errIs(err, errShortPacket) && len(result0) == 0
+//@   ensures first_octet [C11,C09]: err == nil ==> int(p.X) == vp8X(payload) && int(p.N) == bits(payload[0], 5, 5) && int(p.S) == bits(payload[0], 4, 4) && int(p.PID) == bits(payload[0], 2, 0)
+//@   ensures ext_flags [C11,C09]: err == nil ==> int(p.I) == vp8I(payload) && int(p.L) == vp8L(payload) && int(p.T) == vp8T(payload) && int(p.K) == vp8K(payload)
+//@   ensures picture_id [C11,C09]: err == nil ==> int(p.PictureID) == ite(vp8I(payload) == 1, ite(vp8M(payload) == 1, bits(payload[vp8PidOff(payload)], 6, 0) * 256 + int(payload[vp8PidOff(payload) + 1]), int(payload[vp8PidOff(payload)])), 0)
+//@   ensures tl0picidx [C11,C09]: err == nil ==> int(p.TL0PICIDX) == ite(vp8L(payload) == 1, int(payload[vp8TL0Off(payload)]), 0)
+//@   ensures tid_y_keyidx [C11,C09]: err == nil ==> int(p.TID) == ite(vp8T(payload) == 1, bits(payload[vp8TKOff(payload)], 7, 6), 0) && int(p.Y) == ite(vp8T(payload) == 1, bits(payload[vp8TKOff(payload)], 5, 5), 0) && int(p.KEYIDX) == ite(vp8K(payload) == 1, bits(payload[vp8TKOff(payload)], 4, 0), 0)
+//@   ensures rest [C11,C09]: err == nil ==> sameobj(result0, payload) && off(result0) == off(payload) + vp8DescLen(payload) && len(result0) == len(payload) - vp8DescLen(payload)
+//@   ensures kept [C11,C09]: err == nil ==> sameobj(p.Payload, payload) && off(p.Payload) == off(result0) && len(p.Payload) == len(result0)
+//@ end
+//@ spec (*VP8Packet).IsPartitionHead
+//@   ensures s_bit [C11,C09]: result0 <==> (len(payload) >= 1 && bits(payload[0], 4, 4) == 1)
+//@ end
+//@ spec (*VP8PartitionHeadChecker).IsPartitionHead
+//@   ensures s_bit [C11]: result0 <==> (len(packet) >= 1 && bits(packet[0], 4, 4) == 1)
+//@ end
+
+// VP8 payloader: descriptor length by picture-id form (7-bit below 128, 15-bit from 128).
+//@ pure vp8Hdr(en, pid) = ite(en, ite(pid < 128, 3, 4), 1)
+// descriptor octets of fragment j
+//@ pure bool vp8DescOK(f, j, en, pid) = int(f[0]) == ite(j == 0, 16, 0) + ite(en, 128, 0) && (en ==> int(f[1]) == 128) && (en && pid < 128 ==> int(f[2]) == pid) && (en && pid >= 128 ==> int(f[2]) == 128 + pid / 256 && int(f[3]) == pid % 256)
+
+//@ spec (*VP8Payloader).Payload
+//@   requires p.pictureID < 32768
+//@   modifies p.pictureID
+//@   ensures none [C11,C08]: (int(mtu) - vp8Hdr(p.EnablePictureID, old(int(p.pictureID))) <= 0 || len(payload) == 0) ==> len(result0) == 0 && p.pictureID == old(p.pictureID)
+//@   ensures next_id [C11]: int(mtu) - vp8Hdr(p.EnablePictureID, old(int(p.pictureID))) > 0 && len(payload) > 0 ==> int(p.pictureID) == (old(int(p.pictureID)) + 1) % 32768
+//@   ensures count [C11]: int(mtu) - vp8Hdr(p.EnablePictureID, old(int(p.pictureID))) > 0 && len(payload) > 0 ==> len(result0) >= 1 && (len(result0) - 1) * (int(mtu) - vp8Hdr(p.EnablePictureID, old(int(p.pictureID)))) < len(payload) && len(payload) <= len(result0) * (int(mtu) - vp8Hdr(p.EnablePictureID, old(int(p.pictureID))))
+//@   ensures sizes [C11,C08]: forall j :: 0 <= j && j < len(result0) ==> result0[j] != nil && fresh(result0[j]) && off(result0[j]) == 0 && len(result0[j]) == vp8Hdr(p.EnablePictureID, old(int(p.pictureID))) + min(int(mtu) - vp8Hdr(p.EnablePictureID, old(int(p.pictureID))), len(payload) - j * (int(mtu) - vp8Hdr(p.EnablePictureID, old(int(p.pictureID)))))
+//@   ensures bound [C08]: forall j :: 0 <= j && j < len(result0) ==> 1 <= len(result0[j]) && len(result0[j]) <= int(mtu)
+//@   ensures descriptors [C11]: forall j :: 0 <= j && j < len(result0) ==> vp8DescOK(result0[j], j, p.EnablePictureID, old(int(p.pictureID)))
+//@   ensures frag_bytes [C11]: forall j, q :: 0 <= j && j < len(result0) && 0 <= q && q < len(result0[j]) - vp8Hdr(p.EnablePictureID, old(int(p.pictureID))) ==> result0[j][vp8Hdr(p.EnablePictureID, old(int(p.pictureID))) + q] == payload[j * (int(mtu) - vp8Hdr(p.EnablePictureID, old(int(p.pictureID)))) + q]
+//@   ensures owned [C08]: fresh(result0)
+//@   loop 0: invariant consts [C11,C08]: usingHeaderSize == vp8Hdr(p.EnablePictureID, int(p.pictureID)) && maxFragmentSize == int(mtu) - usingHeaderSize && maxFragmentSize >= 1 && sameobj(payloadData, payload) && off(payloadData) == off(payload) && len(payloadData) == len(payload) && p.pictureID == old(p.pictureID)
+//@   loop 0: invariant progress [C11,C08]: payloadDataIndex >= 0 && payloadDataRemaining >= 0 && payloadDataIndex + payloadDataRemaining == len(payload) && payloadDataIndex == min(len(payloads) * maxFragmentSize, len(payload)) && (len(payloads) > 0 ==> (len(payloads) - 1) * maxFragmentSize < len(payload)) && (first <==> len(payloads) == 0) && len(payloads) >= 0 && fresh(payloads) && (len(payloads) == 0 ==> payloadDataRemaining > 0)
+//@   loop 0: invariant sizes [C11,C08]: forall j :: 0 <= j && j < len(payloads) ==> payloads[j] != nil && fresh(payloads[j]) && off(payloads[j]) == 0 && len(payloads[j]) == usingHeaderSize + min(maxFragmentSize, len(payload) - j * maxFragmentSize)
+//@   loop 0: invariant descriptors [C11]: forall j :: 0 <= j && j < len(payloads) ==> vp8DescOK(payloads[j], j, p.EnablePictureID, int(p.pictureID))
+//@   loop 0: invariant frag_bytes [C11]: forall j, q :: 0 <= j && j < len(payloads) && 0 <= q && q < len(payloads[j]) - usingHeaderSize ==> payloads[j][usingHeaderSize + q] == payload[j * maxFragmentSize + q]
+//@   loop 0: decreases payloadDataRemaining
+//@ end
